@@ -23,3 +23,22 @@ package filesystem
 //@   opaque
 //@   pure
 //@   ensures result1 == nil && len(pathComponents) == 1 ==> result0 == mdir(pathComponents[0])
+
+// The Opener keeps directory handles for the parents of the last opened path.
+// Its methods talk to the operating system; they are trusted to write only the
+// opener's own state (not verified).
+//@ func NewOpener
+//@   opaque
+//@   pure
+//@   fresh result
+//@   ensures result != nil && base(result.openParentNames) == 0 && base(result.openParentDirectories) == 0
+
+//@ func (*Opener).OpenFile
+//@   opaque
+//@   modifies o.rootDirectory, o.openParentNames, o.openParentNames[*], o.openParentDirectories, o.openParentDirectories[*], closed, closeErr
+//@   ensures base(o.openParentNames) == old(base(o.openParentNames)) || fresh(o.openParentNames)
+//@   ensures base(o.openParentDirectories) == old(base(o.openParentDirectories)) || fresh(o.openParentDirectories)
+
+//@ func (*Opener).Close
+//@   opaque
+//@   modifies o.rootDirectory, o.openParentNames, o.openParentDirectories, closed, closeErr
